@@ -305,5 +305,24 @@ PROPS["C11"] = {
     "shrink": False,
 }
 
+PROPS["C15"] = {
+    "id": "C15",
+    "lean_modules": ["JT.Props.C15", "JT.Props.C16"],
+    "functional_ops": ["att"],
+    "rule": ("upload sessions against a real attachment server subprocess (default handlers; scratch working directory), for each of the five active-safety dialects (HLJ with its length-prefixed chunk header): 1..3 files "
+             "(sizes 1 B .. 70 kB; names: plain, containing the chunk marker 30316364, random bytes; content with embedded markers; alarm ids containing '01cd'), each file split into a random partition (chunk lengths 1..65536), "
+             "chunks in random order; modes: all arrive / some withheld, 0x1212, resent, 0x1212 / duplicates (incl. after completion) / withheld for good; 0x1212 before any chunk; the whole byte stream written in one piece or cut "
+             "into random writes of 1..5000 bytes. Observed: the reply frames read by the client and the server's final per-file record (complete flag, length and SHA-256 of the reassembled body). "
+             "non-trivial = every scenario (each has at least 3 control frames)."),
+    "technique": "Lean 4 proof about a model of the per-file bookkeeping (CurrentSize/offset map/ordered assembly) and the session reply function, for all tilings, arrival orders and resends + socket scenarios on the real server compared with the model and with a brute-force oracle",
+    "level_text": ("Machine-checked Lean 4 theorems: for EVERY file size and content, EVERY split of the file into pieces (any number, any sizes >= 1) and EVERY arrival sequence over those pieces (any order, any repetitions): CurrentSize equals the number of distinct bytes received, "
+                   "the record is complete iff every piece has arrived, the assembled body is then byte-identical to the original, further resends change neither; every control frame is answered exactly once and chunks never; the 0x1212 answer is the exact missing-range list (C16 theorems). "
+                   "Partial: recognition of control frames vs chunks inside the byte stream and independence from TCP segmentation are NOT proved; they are decided by executing random write partitions and marker-bearing names/ids/content against the real server on every run."),
+    "level_note": "Trusted: Lean kernel; model tied by sampled socket scenarios; sysd/sock harness. Stream classification and segmentation independence are tested, not proved.",
+    "trusted_base": [KERNEL, AXIOMS, HARNESS, _SOCK_TB[3], "model lean/JT/Model/Attach.lean: offset map as a function, chunks lie inside the file; pieces come from a partition of the file (the property's 'any split'); overlapping chunks at different offsets are outside the model and the property"],
+    "assumptions": ["chunks are pieces of one partition of the file (resends repeat a piece exactly)", "file names are distinct and non-empty; sizes >= 1"],
+    "shrink": False,
+}
+
 # properties that are not claimed, with the reason (anything not listed and not in PROPS gets a generic "not built yet")
 NOT_APPLICABLE = {}
